@@ -14,6 +14,7 @@ import (
 	"perun.network/go-perun/channel/persistence"
 	"perun.network/go-perun/client"
 	"perun.network/go-perun/wallet"
+	"perun.network/go-perun/watcher"
 	"perun.network/go-perun/watcher/local"
 	"perun.network/go-perun/wire"
 
@@ -120,6 +121,9 @@ type Env struct {
 	Ledger *Ledger
 	Bus    *Bus
 	Seq    atomic.Uint64
+	// WatchStartHook, if set, is called when a party's Channel.Watch registers
+	// the channel with the watcher (the client holds the machine mutex then).
+	WatchStartHook func(p *Party, id channel.ID)
 
 	mu      sync.Mutex
 	parties []*Party
@@ -176,7 +180,7 @@ func (e *Env) NewParty(name string, keyIdx int, watch bool) (*Party, error) {
 		return nil, err
 	}
 	p.Watcher = w
-	c, err := client.New(p.WireAddr, e.Bus, p.View, p.View, map[wallet.BackendID]wallet.Wallet{0: p.Wallet}, w)
+	c, err := client.New(p.WireAddr, e.Bus, p.View, p.View, map[wallet.BackendID]wallet.Wallet{0: p.Wallet}, hookWatcher{Watcher: w, p: p})
 	if err != nil {
 		return nil, err
 	}
@@ -237,6 +241,28 @@ func (p *Party) SetHandlers(ph func(client.ChannelProposal, *client.ProposalResp
 	if uh != nil {
 		p.OnUpdate = uh
 	}
+}
+
+// hookWatcher lets the scenario act at the moment a channel's Watch registers
+// with the watcher (Env.WatchStartHook), which happens while the client holds
+// the channel's machine mutex.
+type hookWatcher struct {
+	watcher.Watcher
+	p *Party
+}
+
+func (w hookWatcher) StartWatchingLedgerChannel(ctx context.Context, s channel.SignedState) (watcher.StatesPub, watcher.AdjudicatorSub, error) {
+	if hk := w.p.Env.WatchStartHook; hk != nil {
+		hk(w.p, s.Params.ID())
+	}
+	return w.Watcher.StartWatchingLedgerChannel(ctx, s)
+}
+
+func (w hookWatcher) StartWatchingSubChannel(ctx context.Context, parent channel.ID, s channel.SignedState) (watcher.StatesPub, watcher.AdjudicatorSub, error) {
+	if hk := w.p.Env.WatchStartHook; hk != nil {
+		hk(w.p, s.Params.ID())
+	}
+	return w.Watcher.StartWatchingSubChannel(ctx, parent, s)
 }
 
 type adjHandler struct{ p *Party }
